@@ -1,0 +1,47 @@
+//go:build verif
+
+// Machine-checked contracts for package server (comment-only; read by /verif/cmd/govc).
+
+package server
+
+// ---- the gates that keep committed (locked) versions immutable (C02) ----
+// Each gate is a closure; the assertion sits at the point where the request is handed on.
+// safety_off: these handlers are checked for the gate condition only.
+
+//@ func nodeSelector$1
+//@   prop C02
+//@   safety_off
+//@   modifies *
+//@   ghost gFull bool = false
+//@   ghostset at "if !adminPriv && !fullwrite && locked && !branchRequest": gFull = fullwrite
+//@   assert at "h.ServeHTTP(w, r)": adminPriv || gFull || !locked || tolower(r.Method) == "get" || tolower(r.Method) == "head" || c.URLParams["action"] == "branch" || c.URLParams["action"] == "newversion" || c.URLParams["action"] == "tag"
+
+//@ func instanceSelector$1
+//@   prop C02
+//@   safety_off
+//@   modifies *
+//@   ghost gChecked bool = false
+//@   ghost gLocked bool = false
+//@   ghost gAdmin bool = false
+//@   ghost gFull bool = false
+//@   ghost gMut bool = false
+//@   ghostset at "if !adminPriv && !fullwrite && locked && data.IsMutationRequest(r.Method": gChecked = true
+//@   ghostset at "if !adminPriv && !fullwrite && locked && data.IsMutationRequest(r.Method": gLocked = locked
+//@   ghostset at "if !adminPriv && !fullwrite && locked && data.IsMutationRequest(r.Method": gAdmin = adminPriv
+//@   ghostset at "if !adminPriv && !fullwrite && locked && data.IsMutationRequest(r.Method": gFull = fullwrite
+//@   ghostset at "if !adminPriv && !fullwrite && locked && data.IsMutationRequest(r.Method": gMut = data.IsMutationRequest(r.Method, c.URLParams["keyword"])
+//@   assert at "activity := data.ServeHTTP(uuid, ctx, myw, r)": data.Versioned() ==> gChecked && (gAdmin || gFull || !gLocked || !gMut)
+
+//@ func repoCommitHandler
+//@   prop C02
+//@   safety_off
+//@   modifies *
+//@   assert at "err = datastore.Commit(uuid, jsonData.Note, jsonData.Log)": !locked
+
+//@ func repoNewDataHandler
+//@   prop C02
+//@   safety_off
+//@   modifies *
+//@   ghost gFull bool = false
+//@   ghostset at "if !adminPriv && !fullwrite && locked {": gFull = fullwrite
+//@   assert at "datastore.NewData(uuid, typeservice": adminPriv || gFull || !locked
